@@ -10,7 +10,9 @@ package main
 //	                                                packages is structural only: a changed method signature still compiles)
 //	core/plugin/pluginconfig/hooks.go               parseConf: which function of the raw `type` value is compared with ""
 //	                                                and which one is handed on as the plugin name
-//	components/providers/scenario/vs/vs_csv.go      readCsv: the test that guards `delimiter[…]` and the index used
+//	components/providers/scenario/vs/vs_csv.go      readCsv: the test that guards `delimiter[…]` and the index used; the
+//	                                                conditions under which the record is indexed in the loop over the
+//	                                                column names (then-branches as they are, else-branches negated)
 //
 // lean/Pandora/Bridge/C13.lean proves what the models of lean/Pandora/Model/C13Cfg.lean need of them, for ALL arguments.
 // Every identifier of this file carries the prefix `c13src`.
@@ -421,11 +423,162 @@ func c13srcR4ReadCsv(t *tr, b *strings.Builder) {
 	b.WriteString("def csvCommaIndex : Int := " + uses[0].index + "\n\n")
 }
 
+// ---------------------------------------------------------------- readCsv: the index into a record
+
+// c13srcR4CsvRecord: every index expression on the record `csv.Reader.Read` hands out, other than `record[k]` inside
+// `for k := range record` (inside by construction), with the conditions it stands under - then-branches as they are,
+// else-branches negated. Conditions that do not mention the record are dropped (a weaker guard: sound). The names of the
+// locals are read off the source: the record is what `….Read()` is assigned to, the index may be the key of any
+// enclosing `range` (of which only `0 ≤ key` is used).
+func c13srcR4CsvRecord(t *tr, b *strings.Builder) {
+	p := c13srcLoad(t, "github.com/yandex/pandora/components/providers/scenario/vs")
+	x := &c13srcR4{t: t, p: p}
+	fd := c13srcFunc(p, "", "readCsv")
+	if fd == nil {
+		x.fail(nil, "vs.readCsv not found")
+		return
+	}
+	rec := ""
+	ast.Inspect(fd.Body, func(n ast.Node) bool {
+		if as, ok := n.(*ast.AssignStmt); ok && len(as.Lhs) == 2 && len(as.Rhs) == 1 {
+			if c, ok := as.Rhs[0].(*ast.CallExpr); ok && strings.HasSuffix(c13srcText(p, c.Fun), ".Read") && len(c.Args) == 0 {
+				rec = c13srcText(p, as.Lhs[0])
+			}
+		}
+		return true
+	})
+	if rec == "" {
+		x.fail(fd, "readCsv: no `record, err := ….Read()`")
+		return
+	}
+	type guard struct {
+		e   ast.Expr
+		neg bool
+	}
+	type use struct {
+		guards []guard
+		index  ast.Expr
+		keys   map[string]bool
+	}
+	var uses []use
+	var walk func(stmts []ast.Stmt, guards []guard, keys map[string]bool, self map[string]bool)
+	visit := func(n ast.Node, guards []guard, keys, self map[string]bool) {
+		if n == nil {
+			return
+		}
+		ast.Inspect(n, func(m ast.Node) bool {
+			switch y := m.(type) {
+			case *ast.IndexExpr:
+				if c13srcText(p, y.X) == rec {
+					if id, ok := y.Index.(*ast.Ident); ok && self[id.Name] {
+						return true
+					}
+					ks := map[string]bool{}
+					for k := range keys {
+						ks[k] = true
+					}
+					uses = append(uses, use{append([]guard(nil), guards...), y.Index, ks})
+				}
+			case *ast.SliceExpr:
+				if c13srcText(p, y.X) == rec {
+					x.fail(y, "slice expression on the record")
+				}
+			case *ast.FuncLit:
+				x.fail(y, "function literal in readCsv")
+				return false
+			}
+			return true
+		})
+	}
+	with := func(m map[string]bool, k string) map[string]bool {
+		out := map[string]bool{}
+		for a := range m {
+			out[a] = true
+		}
+		if k != "" && k != "_" {
+			out[k] = true
+		}
+		return out
+	}
+	walk = func(stmts []ast.Stmt, guards []guard, keys, self map[string]bool) {
+		for _, s := range stmts {
+			switch y := s.(type) {
+			case *ast.IfStmt:
+				visit(y.Init, guards, keys, self)
+				visit(y.Cond, guards, keys, self)
+				walk(y.Body.List, append(append([]guard(nil), guards...), guard{y.Cond, false}), keys, self)
+				switch e := y.Else.(type) {
+				case *ast.BlockStmt:
+					walk(e.List, append(append([]guard(nil), guards...), guard{y.Cond, true}), keys, self)
+				case *ast.IfStmt:
+					walk([]ast.Stmt{e}, append(append([]guard(nil), guards...), guard{y.Cond, true}), keys, self)
+				}
+			case *ast.RangeStmt:
+				visit(y.X, guards, keys, self)
+				k := ""
+				if y.Key != nil {
+					k = c13srcText(p, y.Key)
+				}
+				if c13srcText(p, y.X) == rec {
+					walk(y.Body.List, guards, keys, with(self, k))
+				} else {
+					walk(y.Body.List, guards, with(keys, k), self)
+				}
+			case *ast.ForStmt:
+				visit(y.Init, guards, keys, self)
+				visit(y.Cond, guards, keys, self)
+				visit(y.Post, guards, keys, self)
+				walk(y.Body.List, guards, keys, self)
+			case *ast.BlockStmt:
+				walk(y.List, guards, keys, self)
+			default:
+				visit(s, guards, keys, self)
+			}
+		}
+	}
+	walk(fd.Body.List, nil, map[string]bool{}, map[string]bool{})
+	if len(uses) != 1 {
+		x.fail(fd, "readCsv: %d index expressions on the record outside a range over it (one expected)", len(uses))
+		return
+	}
+	u := uses[0]
+	env := map[string]string{"len(" + rec + ")": "recLen"}
+	for k := range u.keys {
+		env[k] = "i"
+	}
+	if len(u.keys) != 1 {
+		x.fail(u.index, "readCsv: the index into the record stands under %d range loops (one expected)", len(u.keys))
+		return
+	}
+	cx := &c13srcX{t: t, p: p, env: env}
+	var gs []string
+	for _, g := range u.guards {
+		if !strings.Contains(c13srcText(p, g.e), rec) {
+			continue
+		}
+		c := cx.cond(g.e)
+		if g.neg {
+			c = "(¬ " + c + ")"
+		}
+		gs = append(gs, c)
+	}
+	g := "True"
+	if len(gs) > 0 {
+		g = strings.Join(gs, " ∧ ")
+	}
+	b.WriteString("/-- regenerated from `readCsv`: the conditions under which the record the reader handed out is indexed outside a `range` over\nit (`i` = the key of the enclosing `range` over the column names, `recLen` = `len(record)`; else-branches negated) … -/\n")
+	b.WriteString("def csvRecordGuard (i recLen : Int) : Prop := " + g + "\n")
+	b.WriteString("instance (i recLen : Int) : Decidable (csvRecordGuard i recLen) := by unfold csvRecordGuard; exact inferInstance\n\n")
+	b.WriteString("/-- … and the index used -/\n")
+	b.WriteString("def csvRecordIndex (i recLen : Int) : Int := " + cx.intE(u.index) + "\n\n")
+}
+
 func c13srcRound4(t *tr) string {
 	var b strings.Builder
 	b.WriteString("/-! ## round 4: `chosen_cases` under `runFullScan`, the plugin name of `parseConf`, the separator of `readCsv` -/\n\n")
 	c13srcR4FullScan(t, &b)
 	c13srcR4ParseConf(t, &b)
 	c13srcR4ReadCsv(t, &b)
+	c13srcR4CsvRecord(t, &b)
 	return b.String()
 }
